@@ -25,9 +25,10 @@ theorem step_keysNodup (s : Sys) (ev : Event) (h : KeysNodup s.env.owner) :
       · exact h.regOf _ _
       · exact h
   | completions n => simp only [step, handleCompletions_owner]; exact h.regAll _
-  | send a t v => simp only [step, handleDeliver_owner]; exact h.insertAll _ _
+  | send a t v => simp only [step, handleDeliver_owner]; exact (h.insertAll _ _).eraseAll _
   | spawn c caps arg => simp only [step, handleSpawn_owner]; exact h.insertAll _ _
   | terminate p => exact h
+  | exited p => simp only [step, handleProcessExited_owner]; exact h.eraseAll _
   | results a rs =>
     simp only [step, handleProcessResults_owner]
     exact h.eraseAll _
@@ -54,14 +55,42 @@ example : ownGet (run (init 2) [.start, .open 0, .open 0]).env.owner 2 = some 0 
 
 /-! ## transfer_moves -/
 
-/-- **transfer_moves (deliver).** After the environment handles `DeliverAction{target, message}`,
-every resource occurring anywhere in the message — at any depth inside tuples and closure captures
-— is owned by the target, whoever owned it before and whoever sent it; all other registrations are
-untouched. Holds in every state. -/
-theorem transfer_moves_send (s : Sys) (sender target : Pid) (msg : Val) (r : Rid) :
+/-- **transfer_moves (deliver), general form.** After the environment handles
+`DeliverAction{target, message}`: every resource occurring anywhere in the message — at any depth
+inside tuples and closure captures — is owned by the target, whoever owned it before and whoever
+sent it, and all other registrations are untouched; EXCEPT when the target has already terminated
+(`exited_processes`, repair of F10b): then everything the target would own is closed and
+unregistered instead (`deliverClosed`). Holds in every state. -/
+theorem transfer_moves_send_gen (s : Sys) (sender target : Pid) (msg : Val) (r : Rid) :
+    ownGet (step s (.send sender target msg)).env.owner r
+      = if r ∈ deliverClosed s.env target msg then none
+        else if r ∈ msg.resources then some target else ownGet s.env.owner r := by
+  simp only [step, handleDeliver_owner, ownGet_eraseAll, ownGet_insertAll]
+
+/-- **transfer_moves (deliver).** Delivery to a process that has not terminated: every resource
+anywhere in the message is owned by the target afterwards; all other registrations are untouched. -/
+theorem transfer_moves_send (s : Sys) (sender target : Pid) (msg : Val) (r : Rid)
+    (halive : s.env.exited.contains target = false) :
     ownGet (step s (.send sender target msg)).env.owner r
       = if r ∈ msg.resources then some target else ownGet s.env.owner r := by
-  simp [step, ownGet_insertAll]
+  rw [transfer_moves_send_gen, deliverClosed_alive _ halive]
+  simp
+
+/-- **F10b repaired.** Delivery to a process that HAS terminated: every resource anywhere in the
+message is passed to `close_resource`, is no longer open and is registered to nobody — it does not
+stay open, owned by a process that no longer exists. -/
+theorem delivery_to_exited_closes (s : Sys) (hn : KeysNodup s.env.owner) (sender target : Pid) (msg : Val)
+    (hdead : s.env.exited.contains target = true) (r : Rid) (hr : r ∈ msg.resources) :
+    let s' := step s (.send sender target msg)
+    r ∈ s'.env.backend.closeCalls ∧ r ∉ s'.env.backend.openSet ∧ ownGet s'.env.owner r = none := by
+  have hm : r ∈ deliverClosed s.env target msg := by
+    rw [deliverClosed_dead _ hdead]
+    rw [mem_ownedBy (hn.insertAll _ _), ownGet_insertAll, if_pos hr]
+  refine ⟨?_, ?_, ?_⟩
+  · simp only [step, handleDeliver_backend, closeAll_closeCalls, List.mem_append]; exact .inr hm
+  · simp only [step, handleDeliver_backend, closeAll_openSet, List.mem_filter]
+    intro hc; simp [hm] at hc
+  · rw [transfer_moves_send_gen, if_pos hm]
 
 /-- **transfer_moves (spawn).** After `SpawnAction{caller, captures, argument}`, every resource
 occurring anywhere in a capture or in the argument is owned by the NEW process (whose id is the
@@ -139,7 +168,8 @@ theorem executed_only_by_requests (s : Sys) (ev : Event)
   | request p e w => exact ⟨p, e, w, rfl⟩
   | start => exact absurd rfl h
   | terminate p => exact absurd rfl h
-  | send a t v => simp [step] at h
+  | exited p => simp [step, closeAll_executed] at h
+  | send a t v => simp [step, handleDeliver_backend, closeAll_executed] at h
   | spawn c caps arg => simp [step] at h
   | completions n =>
     exfalso; apply h
@@ -157,24 +187,26 @@ example :
 
 /-! ## cleanup_closes_once / no_close_while_owner_alive -/
 
-/-- Only `results` events (a `ProcessResults` arriving at the environment) call `close_resource`. -/
-theorem close_calls_only_by_results (s : Sys) (ev : Event)
-    (h : (step s ev).env.backend.closeCalls ≠ s.env.backend.closeCalls) : ∃ a rs, ev = .results a rs := by
+/-- `close_resource` is called only by a cleanup: while handling a `ProcessResults`, a
+`ProcessExited`, or the delivery of a message to a process that has already terminated. -/
+theorem close_calls_only_by_cleanup (s : Sys) (ev : Event)
+    (h : (step s ev).env.backend.closeCalls ≠ s.env.backend.closeCalls) :
+    (∃ a rs, ev = .results a rs) ∨ (∃ p, ev = .exited p) ∨
+    (∃ a t v, ev = .send a t v ∧ s.env.exited.contains t = true) := by
+  rw [step_closeCalls] at h
   cases ev with
-  | results a rs => exact ⟨a, rs, rfl⟩
-  | start => exact absurd rfl h
-  | terminate p => exact absurd rfl h
-  | send a t v => simp [step] at h
-  | spawn c caps arg => simp [step] at h
-  | completions n =>
-    exfalso; apply h
-    simp only [step, handleCompletions_backend, processCompletions_closeCalls]
-  | request p e w =>
-    exfalso; apply h
-    simp only [step, handleEffectRequest_backend]
-    split
-    · rfl
-    · exact execute_closeCalls _ _ _ _
+  | results a rs => exact .inl ⟨a, rs, rfl⟩
+  | exited p => exact .inr (.inl ⟨p, rfl⟩)
+  | send a t v =>
+    refine .inr (.inr ⟨a, t, v, rfl, ?_⟩)
+    cases hc : s.env.exited.contains t with
+    | true => rfl
+    | false => exfalso; apply h; simp [closedBy, deliverClosed_alive _ hc]
+  | start => exact absurd (by simp [closedBy]) h
+  | terminate p => exact absurd (by simp [closedBy]) h
+  | spawn c caps arg => exact absurd (by simp [closedBy]) h
+  | completions n => exact absurd (by simp [closedBy]) h
+  | request p e w => exact absurd (by simp [closedBy]) h
 
 /-- `p` is cleaned up by this `ProcessResults`: the message carries `Some(result)` for `p`, and `p`
 is not a persistent process reporting a value (= merely asleep until resumed; repair 200f50e). -/
@@ -214,38 +246,89 @@ theorem cleanup_closes_once_step (s : Sys) (hn : KeysNodup s.env.owner) (a : Pid
   · intro r hr
     simp only [step, handleProcessResults_owner, ownGet_eraseAll, if_pos hr]
 
-/-- **no_close_while_owner_alive.** In a state reached by any history, when the workers respect
-`livenessOk` for the next event — they report `Some(result)` only for a process that is dead, or
-`Some(Ok(_))` for a persistent process that is merely asleep between two resumptions (which is what
-`query_and_await` does: it treats `Sleeping` like `Completed`) — every id passed to
-`close_resource` by that event is registered to a process that is dead. Together with
-`close_calls_only_by_results`: the environment never closes a resource whose owner is alive,
+/-- Every process whose `ProcessExited` the environment has handled is dead. -/
+def ExitedInv (s : Sys) : Prop := ∀ p ∈ s.env.exited, p ∈ s.terminated
+
+theorem exitedInv_step {s : Sys} (h : ExitedInv s) (ev : Event) (hev : livenessOk s ev = true) :
+    ExitedInv (step s ev) := by
+  intro p hp
+  rw [step_exited] at hp
+  rw [step_terminated]
+  cases ev with
+  | exited q =>
+    simp only [List.mem_cons] at hp
+    rcases hp with rfl | hp
+    · simpa [livenessOk] using hev
+    · exact h p hp
+  | terminate q => exact List.mem_cons_of_mem _ (h p hp)
+  | start => exact h p hp
+  | request q e w => exact h p hp
+  | completions k => exact h p hp
+  | send a t v => exact h p hp
+  | spawn c caps arg => exact h p hp
+  | results a rs => exact h p hp
+
+theorem exited_sub_terminated (n : Nat) (h : List Event) (hw : wfFrom (init n) h = true) :
+    ExitedInv (run (init n) h) := by
+  suffices ∀ s : Sys, ExitedInv s → wfFrom s h = true → ExitedInv (run s h) from
+    this _ (by intro p hp; simp [init] at hp) hw
+  clear hw
+  induction h with
+  | nil => intro s hs _; exact hs
+  | cons ev rest ih =>
+    intro s hs hw
+    simp only [wfFrom, eventOk, Bool.and_eq_true] at hw
+    exact ih _ (exitedInv_step hs ev hw.1.2) hw.2
+
+/-- The ownership map at the moment a step calls `close_resource` (a delivery transfers first). -/
+def ownerAtClose (s : Sys) : Event → Own
+  | .send _ t v => insertAll s.env.owner v.resources t
+  | _ => s.env.owner
+
+/-- **no_close_while_owner_alive.** In a state reached by any well-formed history, when the workers
+respect `livenessOk` for the next event — they report `Some(result)` only for a process that is
+dead, or `Some(Ok(_))` for a persistent process that is merely asleep between two resumptions (which
+is what `query_and_await` does: it treats `Sleeping` like `Completed`), and send `ProcessExited`
+only for a dead process — every id the step passes to `close_resource` (`closedBy`, which by
+`step_closeCalls` is exactly what the step appends to the call log) is, at that moment, registered
+to a process that is dead. The environment never closes a resource whose owner is alive,
 *including the sleeping REPL process when somebody awaits it* (before the repair 200f50e that case
 failed: `sleeping_owner_closed_by_old_rule`). -/
-theorem no_close_while_owner_alive (n : Nat) (h : List Event) (ev : Event)
-    (hev : livenessOk (run (init n) h) ev = true) (r : Rid)
-    (hr : r ∈ (step (run (init n) h) ev).env.backend.closeCalls)
-    (hnew : r ∉ (run (init n) h).env.backend.closeCalls) :
-    ∃ p, ownGet (run (init n) h).env.owner r = some p ∧ p ∈ (run (init n) h).terminated := by
-  generalize hs : run (init n) h = s at *
-  have hn : KeysNodup s.env.owner := hs ▸ owner_unique n h
-  by_cases hc : (step s ev).env.backend.closeCalls = s.env.backend.closeCalls
-  · rw [hc] at hr; exact absurd hr hnew
-  · obtain ⟨a, rs, rfl⟩ := close_calls_only_by_results s ev hc
-    obtain ⟨closed, hcl, _, hmem, _⟩ := cleanup_closes_once_step s hn a rs
-    rw [hcl, List.mem_append] at hr
-    rcases hr with hr | hr
-    · exact absurd hr hnew
-    · obtain ⟨p, ⟨rep, hm, hne, hns⟩, hg⟩ := (hmem r).1 hr
-      refine ⟨p, hg, ?_⟩
-      simp only [livenessOk, List.all_eq_true] at hev
-      have := hev (p, rep) hm
-      simp only [Bool.or_eq_true, beq_iff_eq, List.contains_eq_mem, decide_eq_true_eq,
-        Bool.and_eq_true] at this
-      rcases this with (h1 | h1) | h1
-      · exact absurd h1 hne
-      · exact h1
-      · exact absurd h1 hns
+theorem no_close_while_owner_alive (n : Nat) (h : List Event) (hw : wfFrom (init n) h = true)
+    (ev : Event) (hev : livenessOk (run (init n) h) ev = true) (r : Rid)
+    (hr : r ∈ closedBy (run (init n) h) ev) :
+    ∃ p, ownGet (ownerAtClose (run (init n) h) ev) r = some p ∧ p ∈ (run (init n) h).terminated := by
+  have hn := owner_unique n h
+  have hex := exited_sub_terminated n h hw
+  generalize run (init n) h = s at *
+  cases ev with
+  | results a rs =>
+    obtain ⟨p, hp, hg⟩ := (mem_cleanupList hn).1 hr
+    obtain ⟨rep, hm, hne, hns⟩ := (cleaned_iff s rs p).1 hp
+    refine ⟨p, hg, ?_⟩
+    simp only [livenessOk, List.all_eq_true] at hev
+    have := hev (p, rep) hm
+    simp only [Bool.or_eq_true, beq_iff_eq, List.contains_eq_mem, decide_eq_true_eq,
+      Bool.and_eq_true] at this
+    rcases this with (h1 | h1) | h1
+    · exact absurd h1 hne
+    · exact h1
+    · exact absurd h1 hns
+  | exited p =>
+    refine ⟨p, (mem_ownedBy hn).1 hr, ?_⟩
+    simpa [livenessOk] using hev
+  | send a t v =>
+    simp only [closedBy] at hr
+    cases hc : s.env.exited.contains t with
+    | false => rw [deliverClosed_alive _ hc] at hr; cases hr
+    | true =>
+      rw [deliverClosed_dead _ hc] at hr
+      refine ⟨t, (mem_ownedBy (hn.insertAll _ _)).1 hr, hex t (by simpa using hc)⟩
+  | start => cases hr
+  | terminate p => cases hr
+  | spawn c caps arg => cases hr
+  | request p e w => cases hr
+  | completions k => cases hr
 
 /-- The repair in isolation: a `ProcessResults` that reports a value for a persistent process
 changes nothing at all — its resources stay registered and open. -/
@@ -276,13 +359,31 @@ example :
 /-- Events the environment produces by itself (no worker sent anything). -/
 def EnvOnly (h : List Event) : Prop := ∀ ev ∈ h, ∃ n, ev = Event.completions n
 
-/-- *Full statement (FALSE of the code — finding F10).* Every resource still registered to a
-process that has terminated is eventually closed by the environment on its own: there is a
-continuation of environment-only steps after which the backend no longer holds it open. -/
-def ClosedOnTerminationStatement : Prop :=
+/-- *The statement as it had to be read BEFORE the repair of F10, when workers did not report
+terminations* (FALSE — finding F10): every resource still registered to a process that has
+terminated is eventually closed by the environment on its own: there is a continuation of
+environment-only steps after which the backend no longer holds it open. -/
+def ClosedOnTerminationWithoutExitReportsStatement : Prop :=
   ∀ (n : Nat) (h : List Event), wfFrom (init n) h = true →
     ∀ p r, p ∈ (run (init n) h).terminated → ownGet (run (init n) h).env.owner r = some p →
       ∃ h', EnvOnly h' ∧ r ∉ (run (init n) (h ++ h')).env.backend.openSet
+
+/-- Continuations that only deliver what has already happened: backend completions, and the
+`ProcessExited` a worker sends for a process that has terminated. -/
+def ExitDelivery (s : Sys) (h' : List Event) : Prop :=
+  ∀ ev ∈ h', (∃ n, ev = Event.completions n) ∨ (∃ p, ev = Event.exited p ∧ p ∈ s.terminated)
+
+/-- **Closed on termination** (full statement; TRUE since the repair of F10). Every resource still
+registered to a process that has terminated is eventually closed without anybody awaiting the
+process: there is a well-formed continuation consisting only of deliveries of what the workers have
+already emitted — here: the `ProcessExited` of that process — after which the backend no longer
+holds the resource open. ("Eventually" = that event is delivered; channels lose nothing.) -/
+def ClosedOnTerminationStatement : Prop :=
+  ∀ (n : Nat) (h : List Event), wfFrom (init n) h = true →
+    ∀ p r, p ∈ (run (init n) h).terminated → ownGet (run (init n) h).env.owner r = some p →
+      ∃ h', ExitDelivery (run (init n) h) h' ∧ wfFrom (run (init n) h) h' = true ∧
+        r ∉ (run (init n) (h ++ h')).env.backend.openSet ∧
+        ownGet (run (init n) (h ++ h')).env.owner r = none
 
 theorem run_append (s : Sys) (a b : List Event) : run s (a ++ b) = run (run s a) b := by
   induction a generalizing s with
@@ -304,14 +405,250 @@ theorem envOnly_idle (s : Sys) (hp : s.env.backend.pending = []) (h' : List Even
 awaits it. -/
 def f10Witness : List Event := [.start, .spawn 0 [] .other, .open 1, .terminate 1]
 
-/-- **F10.** `ClosedOnTerminationStatement` is false: after `[open r by p; p terminates]` the
-resource stays open whatever number of environment steps follow — cleanup runs only inside
-`handle_process_results`, i.e. only if somebody awaits `p`. -/
-theorem closedOnTermination_false : ¬ ClosedOnTerminationStatement := by
+/-- **F10 (the old protocol).** Without exit reports the statement is false: after `[open r by p; p
+terminates]` the resource stays open whatever number of environment steps follow — cleanup ran only
+inside `handle_process_results`, i.e. only if somebody awaited `p`. -/
+theorem closedOnTermination_false_without_exit_reports :
+    ¬ ClosedOnTerminationWithoutExitReportsStatement := by
   intro hst
   obtain ⟨h', he, hno⟩ := hst 1 f10Witness (by decide) 1 1 (by decide) (by decide)
   rw [run_append, envOnly_idle _ (by decide) h' he] at hno
   exact hno (by decide)
+
+/-- **closed_on_termination** — `ClosedOnTerminationStatement` holds: delivering the
+`ProcessExited` of the terminated owner closes the resource and drops its registration. -/
+theorem closed_on_termination : ClosedOnTerminationStatement := by
+  intro n h _ p r hp hr
+  have hn := owner_unique n h
+  refine ⟨[.exited p], ?_, ?_, ?_, ?_⟩
+  · intro ev hev
+    simp only [List.mem_singleton] at hev
+    exact .inr ⟨p, hev, hp⟩
+  · simp [wfFrom, eventOk, handlesExist, livenessOk, hp]
+  · rw [run_append]
+    simp only [run, step, handleProcessExited_backend, closeAll_openSet, List.mem_filter, not_and]
+    intro _
+    simp [(mem_ownedBy hn).2 hr]
+  · rw [run_append]
+    simp only [run, step, handleProcessExited_owner, ownGet_eraseAll, if_pos ((mem_ownedBy hn).2 hr)]
+
+-- the F10 witness continued by the exit report the repaired worker sends: closed
+example :
+    let s := run (init 1) (f10Witness ++ [.exited 1])
+    wfFrom (init 1) (f10Witness ++ [.exited 1]) = true ∧ s.env.backend.closeCalls = [1] ∧
+    s.env.backend.openSet = [] ∧ ownGet s.env.owner 1 = none := by decide
+
+/-! ## a terminated process owns nothing, for good (F10 and F10b repaired) -/
+
+/-- Processes with an operation in flight are alive. -/
+def PendInv (s : Sys) : Prop := ∀ x ∈ s.env.backend.pending, x.1 ∉ s.terminated
+/-- Dead processes have an allocated id. -/
+def TermLt (s : Sys) : Prop := ∀ p ∈ s.terminated, p < s.env.nextPid
+/-- A process whose `ProcessExited` has been handled owns nothing. -/
+def ExOwn (s : Sys) : Prop := ∀ p ∈ s.env.exited, ∀ r, ownGet s.env.owner r ≠ some p
+
+theorem execute_pending (b : Backend) (p : Pid) (e : Effect) (w : Bool) :
+    ∀ x ∈ (b.execute p e w).1.pending, x ∈ b.pending ∨ x.1 = p := by
+  intro x hx
+  unfold Backend.execute Backend.alloc at hx
+  cases hs : e.kind.shape <;> simp only [hs] at hx <;> (repeat' split at hx) <;>
+    simp_all <;> rcases hx with hx | hx <;> simp_all
+
+theorem completeAll_pids (b : Backend) (xs : List (Pid × Pending)) :
+    (b.completeAll xs).2.map (·.1) = xs.map (·.1) := by
+  induction xs generalizing b with
+  | nil => rfl
+  | cons x rest ih =>
+    obtain ⟨p, pd⟩ := x
+    simp only [Backend.completeAll, List.map_cons, ih]
+    cases pd with
+    | plain ok => simp [Backend.completeOne]
+    | creating ok => cases ok <;> simp [Backend.completeOne, Backend.alloc]
+
+theorem processCompletions_pids (b : Backend) (n : Nat) {p : Pid} {res : Res}
+    (h : (p, res) ∈ (b.processCompletions n).2) : ∃ pd, (p, pd) ∈ b.pending := by
+  have h1 : p ∈ (b.processCompletions n).2.map (·.1) := List.mem_map.2 ⟨(p, res), h, rfl⟩
+  rw [processCompletions_eq, completeAll_pids] at h1
+  obtain ⟨⟨q, pd⟩, hm, hq⟩ := List.mem_map.1 h1
+  simp only at hq; subst hq
+  exact ⟨pd, List.mem_of_mem_take hm⟩
+
+theorem processCompletions_pending (b : Backend) (n : Nat) :
+    (b.processCompletions n).1.pending = b.pending.drop n := by
+  rw [processCompletions_eq]
+  exact (completeAll_frame _ _).2.2.2
+
+theorem step_pending (s : Sys) (ev : Event) :
+    ∀ x ∈ (step s ev).env.backend.pending,
+      x ∈ s.env.backend.pending ∨ ∃ e w, ev = .request x.1 e w := by
+  intro x hx
+  cases ev with
+  | start => exact .inl hx
+  | terminate p => exact .inl hx
+  | exited p => simp only [step, handleProcessExited_backend, closeAll_pending] at hx; exact .inl hx
+  | send a t v => simp only [step, handleDeliver_backend, closeAll_pending] at hx; exact .inl hx
+  | spawn c caps arg => simp only [step, handleSpawn_backend] at hx; exact .inl hx
+  | results a rs => simp only [step, handleProcessResults_backend, closeAll_pending] at hx; exact .inl hx
+  | completions n =>
+    simp only [step, handleCompletions_backend, processCompletions_pending] at hx
+    exact .inl (List.mem_of_mem_drop hx)
+  | request p e w =>
+    simp only [step, handleEffectRequest_backend] at hx
+    split at hx
+    · exact .inl hx
+    · rcases execute_pending _ _ _ _ x hx with h | h
+      · exact .inl h
+      · exact .inr ⟨e, w, by rw [h]⟩
+
+theorem pendInv_step {s : Sys} (h : PendInv s) (ev : Event) (hev : livenessOk s ev = true) :
+    PendInv (step s ev) := by
+  intro x hx
+  rw [step_terminated]
+  rcases step_pending s ev x hx with hp | ⟨e, w, rfl⟩
+  · cases ev with
+    | terminate q =>
+      simp only [List.mem_cons, not_or]
+      refine ⟨?_, h x hp⟩
+      simp only [livenessOk, Bool.and_eq_true, Bool.not_eq_eq_eq_not, Bool.not_true,
+        List.contains_eq_mem, decide_eq_false_iff_not, decide_eq_true_eq] at hev
+      intro hq
+      exact hev.2 (List.mem_map.2 ⟨x, hp, hq⟩)
+    | start => exact h x hp
+    | exited q => exact h x hp
+    | request q e w => exact h x hp
+    | completions k => exact h x hp
+    | send a t v => exact h x hp
+    | spawn c caps arg => exact h x hp
+    | results a rs => exact h x hp
+  · simpa [livenessOk] using hev
+
+theorem step_nextPid_mono (s : Sys) (ev : Event) : s.env.nextPid ≤ (step s ev).env.nextPid := by
+  cases ev with
+  | start => simp [step, startProcess]
+  | terminate p => exact Nat.le_refl _
+  | exited p => simp [step]
+  | request p e w => simp [step, handleEffectRequest_nextPid]
+  | completions n => simp [step, (handleCompletions_persistent _ _).2]
+  | send a t v => simp [step, (handleDeliver_frame _ _ _).2.1]
+  | spawn c caps arg => simp [step, (handleSpawn_persistent _ _ _ _).2]
+  | results a rs => simp [step, handleProcessResults, handleCleanups_nextPid]
+
+theorem termLt_step {s : Sys} (h : TermLt s) (ev : Event) (hev : livenessOk s ev = true) :
+    TermLt (step s ev) := by
+  intro p hp
+  rw [step_terminated] at hp
+  have hm := step_nextPid_mono s ev
+  cases ev with
+  | terminate q =>
+    simp only [List.mem_cons] at hp
+    rcases hp with rfl | hp
+    · simp only [livenessOk, Bool.and_eq_true, decide_eq_true_eq] at hev
+      exact Nat.lt_of_lt_of_le hev.1.2 hm
+    · exact Nat.lt_of_lt_of_le (h p hp) hm
+  | start => exact Nat.lt_of_lt_of_le (h p hp) hm
+  | exited q => exact Nat.lt_of_lt_of_le (h p hp) hm
+  | request q e w => exact Nat.lt_of_lt_of_le (h p hp) hm
+  | completions k => exact Nat.lt_of_lt_of_le (h p hp) hm
+  | send a t v => exact Nat.lt_of_lt_of_le (h p hp) hm
+  | spawn c caps arg => exact Nat.lt_of_lt_of_le (h p hp) hm
+  | results a rs => exact Nat.lt_of_lt_of_le (h p hp) hm
+
+theorem ownGet_regAll_cases {m : Own} {cs : List (Pid × Res)} {r : Rid} {p : Pid}
+    (h : ownGet (regAll m cs) r = some p) : ownGet m r = some p ∨ (p, Res.okRes r) ∈ cs := by
+  induction cs generalizing m with
+  | nil => exact .inl h
+  | cons c rest ih =>
+    obtain ⟨q, res⟩ := c
+    simp only [regAll] at h
+    rcases ih h with h1 | h1
+    · rw [ownGet_regOf] at h1
+      split at h1
+      · rename_i hres; cases h1; subst hres; exact .inr List.mem_cons_self
+      · exact .inl h1
+    · exact .inr (List.mem_cons_of_mem _ h1)
+
+theorem exOwn_step {s : Sys} (hn : KeysNodup s.env.owner) (hx : ExitedInv s) (hp : PendInv s)
+    (ht : TermLt s) (h : ExOwn s) (ev : Event) (hev : livenessOk s ev = true) : ExOwn (step s ev) := by
+  intro p hpe r hr
+  rw [step_exited] at hpe
+  cases ev with
+  | start => exact h p hpe r hr
+  | terminate q => exact h p hpe r hr
+  | exited q =>
+    simp only [step, handleProcessExited_owner, ownGet_eraseAll] at hr
+    split at hr
+    · cases hr
+    · rename_i hnm
+      simp only [List.mem_cons] at hpe
+      rcases hpe with rfl | hpe
+      · exact hnm ((mem_ownedBy hn).2 hr)
+      · exact h p hpe r hr
+  | results a rs =>
+    simp only [step, handleProcessResults_owner, ownGet_eraseAll] at hr
+    split at hr
+    · cases hr
+    · exact h p hpe r hr
+  | send a t v =>
+    rw [transfer_moves_send_gen] at hr
+    split at hr
+    · cases hr
+    · rename_i hnm
+      split at hr
+      · rename_i hres
+        cases hr
+        apply hnm
+        rw [deliverClosed_dead _ (by simpa using hpe), mem_ownedBy (hn.insertAll _ _),
+          ownGet_insertAll, if_pos hres]
+      · exact h p hpe r hr
+  | spawn c caps arg =>
+    rw [transfer_moves_spawn] at hr
+    split at hr
+    · cases hr
+      exact absurd (ht _ (hx _ hpe)) (Nat.lt_irrefl _)
+    · exact h p hpe r hr
+  | request q e w =>
+    simp only [step, handleEffectRequest_owner] at hr
+    have hq : q ∉ s.env.exited := by
+      intro hc
+      have := hx q hc
+      simp [livenessOk, this] at hev
+    split at hr
+    · exact h p hpe r hr
+    · split at hr
+      · rw [ownGet_regOf] at hr
+        split at hr
+        · cases hr; exact hq hpe
+        · exact h p hpe r hr
+      · exact h p hpe r hr
+  | completions n =>
+    simp only [step, handleCompletions_owner] at hr
+    rcases ownGet_regAll_cases hr with h1 | h1
+    · exact h p hpe r h1
+    · obtain ⟨pd, hm⟩ := processCompletions_pids _ _ h1
+      exact hp (p, pd) hm (hx p hpe)
+
+/-- **exited_owns_nothing.** Along every well-formed history: a process whose `ProcessExited` the
+environment has handled owns nothing, and never will again — neither what it owned when it
+terminated (F10) nor anything handed to it afterwards (F10b). With `closed_on_termination` and
+`effective_close_once`: when a process terminates, each resource it still owns is closed exactly
+once, awaited or not. -/
+theorem exited_owns_nothing (n : Nat) (h : List Event) (hw : wfFrom (init n) h = true) :
+    ∀ p ∈ (run (init n) h).env.exited, ∀ r, ownGet (run (init n) h).env.owner r ≠ some p := by
+  suffices ∀ s : Sys, KeysNodup s.env.owner → ExitedInv s → PendInv s → TermLt s → ExOwn s →
+      wfFrom s h = true → ExOwn (run s h) from
+    this (init n) (by simp [init, KeysNodup, ownKeys]) (by intro p hp; simp [init] at hp)
+      (by intro x hx; simp [init] at hx) (by intro p hp; simp [init] at hp)
+      (by intro p hp; simp [init] at hp) hw
+  clear hw
+  induction h with
+  | nil => intro s _ _ _ _ h _; exact h
+  | cons ev rest ih =>
+    intro s hn hx hp ht h hw
+    simp only [wfFrom, eventOk, Bool.and_eq_true] at hw
+    exact ih (step s ev) (step_keysNodup s ev hn) (exitedInv_step hx ev hw.1.2)
+      (pendInv_step hp ev hw.1.2) (termLt_step ht ev hw.1.2)
+      (exOwn_step hn hx hp ht h ev hw.1.2) hw.2
+
 
 /-- **closed_on_reported_termination_partial** — the part of "closed on termination" that does
 hold: as soon as a `ProcessResults` reporting `p` as completed is handled (some process awaited
@@ -355,12 +692,13 @@ theorem created_aux (s : Sys) (ev : Event) :
   cases ev with
   | start => exact ⟨[.startProcess (s.env.nextPid % s.env.nWorkers) s.env.nextPid], rfl, by simp⟩
   | terminate p => exact ⟨[], by simp [step], by simp⟩
+  | exited p => exact ⟨[], by simp [step], by simp⟩
   | results a rs => exact ⟨[], by simp [step, handleProcessResults_out], by simp⟩
   | send a t v =>
-    simp only [step, handleDeliver]
-    split
-    · exact ⟨[], by simp, by simp⟩
-    · exact ⟨[.deliverMessage t], rfl, by simp⟩
+    simp only [step]
+    rcases handleDeliver_out_cases s.env t v with h | h
+    · exact ⟨[], by simp [h], by simp⟩
+    · exact ⟨[.deliverMessage t], h, by simp⟩
   | spawn c caps arg =>
     simp only [step, handleSpawn]
     split
@@ -462,11 +800,19 @@ theorem owner_changes_only_by_transfer (s : Sys) (hs : Inv s) (ev : Event) (r : 
   cases ev with
   | start => exact (same rfl).elim
   | terminate x => exact (same rfl).elim
-  | send a t v =>
-    rw [transfer_moves_send] at h1
+  | exited x =>
+    exfalso
+    simp only [step, handleProcessExited_owner, ownGet_eraseAll] at h1
     split at h1
-    · cases h1; exact .inl ⟨a, v, rfl, ‹_›⟩
-    · rw [h0] at h1; cases h1; exact (hne rfl).elim
+    · cases h1
+    · rw [h0] at h1; cases h1; exact hne rfl
+  | send a t v =>
+    rw [transfer_moves_send_gen] at h1
+    split at h1
+    · cases h1
+    · split at h1
+      · cases h1; exact .inl ⟨a, v, rfl, ‹_›⟩
+      · rw [h0] at h1; cases h1; exact (hne rfl).elim
   | spawn c caps arg =>
     rw [transfer_moves_spawn] at h1
     split at h1
@@ -517,20 +863,39 @@ theorem effective_close_once (n : Nat) (h : List Event) :
 
 
 /-- **Who can close.** In every state with unique registrations: if a step removes an open resource
-`r` from the backend's registry, the step is either an explicit close effect naming `r` that passed
-the ownership check (requested by `r`'s owner, or `r` is unregistered), or a `ProcessResults`
-reporting the process `r` is registered to as complete (`Cleaned`: not a sleeping persistent
-process). Nothing else ever closes a resource — in
-particular not the termination of its owner (F10), and not time. -/
+`r` from the backend's registry, the step is
+* an explicit close effect naming `r` that passed the ownership check (requested by `r`'s owner, or
+  `r` is unregistered), or
+* a `ProcessResults` reporting the process `r` is registered to as complete (`Cleaned`: not a
+  sleeping persistent process), or
+* the `ProcessExited` of the process `r` is registered to, or
+* the delivery of a message to an already terminated process that, after the transfer, `r` is
+  registered to.
+Nothing else ever closes a resource — not time, and (before the repair of F10, when the last two
+events did not exist) not the termination of its owner. -/
 theorem closed_only_by_owner_close_or_cleanup (s : Sys) (hn : KeysNodup s.env.owner) (ev : Event) (r : Rid)
     (h0 : r ∈ s.env.backend.openSet) (h1 : r ∉ (step s ev).env.backend.openSet) :
     (∃ p e w, ev = .request p e w ∧ e.kind.shape = .closeSync ∧ e.rid = r ∧
       violatesOwnership s.env.owner p e = false) ∨
-    (∃ a rs p, ev = .results a rs ∧ Cleaned s rs p ∧ ownGet s.env.owner r = some p) := by
+    (∃ a rs p, ev = .results a rs ∧ Cleaned s rs p ∧ ownGet s.env.owner r = some p) ∨
+    (∃ p, ev = .exited p ∧ ownGet s.env.owner r = some p) ∨
+    (∃ a t v, ev = .send a t v ∧ s.env.exited.contains t = true ∧
+      ownGet (insertAll s.env.owner v.resources t) r = some t) := by
   cases ev with
   | start => exact absurd h0 h1
   | terminate p => exact absurd h0 h1
-  | send a t v => simp only [step, handleDeliver_backend] at h1; exact absurd h0 h1
+  | exited p =>
+    simp only [step, handleProcessExited_backend, closeAll_openSet, List.mem_filter, h0, true_and,
+      decide_eq_true_eq, Classical.not_not] at h1
+    exact .inr (.inr (.inl ⟨p, rfl, (mem_ownedBy hn).1 h1⟩))
+  | send a t v =>
+    simp only [step, handleDeliver_backend, closeAll_openSet, List.mem_filter, h0, true_and,
+      decide_eq_true_eq, Classical.not_not] at h1
+    cases hc : s.env.exited.contains t with
+    | false => rw [deliverClosed_alive _ hc] at h1; cases h1
+    | true =>
+      rw [deliverClosed_dead _ hc] at h1
+      exact .inr (.inr (.inr ⟨a, t, v, rfl, hc, (mem_ownedBy (hn.insertAll _ _)).1 h1⟩))
   | spawn c caps arg => simp only [step, handleSpawn_backend] at h1; exact absurd h0 h1
   | completions n =>
     simp only [step, handleCompletions_backend] at h1
@@ -548,20 +913,24 @@ theorem closed_only_by_owner_close_or_cleanup (s : Sys) (hn : KeysNodup s.env.ow
     simp only [step, handleProcessResults_backend, closeAll_openSet, List.mem_filter, h0, true_and,
       decide_eq_true_eq, Classical.not_not] at h1
     obtain ⟨p, hp, hg⟩ := (mem_cleanupList hn).1 h1
-    exact .inr ⟨a, rs, p, rfl, (cleaned_iff s rs p).1 hp, hg⟩
+    exact .inr (.inl ⟨a, rs, p, rfl, (cleaned_iff s rs p).1 hp, hg⟩)
 
 /-- F10 in general form: along ANY continuation that contains neither an accepted explicit close of
-`r` nor a report of `r`'s current owner (and no transfer of `r`, so the owner stays the same), an
-open resource stays open — whether or not its owner has terminated. -/
+`r`, nor a report or the `ProcessExited` of `r`'s current owner (and no transfer of `r`, so the owner
+stays the same), an open resource stays open — whether or not its owner has terminated. This is
+what made F10 a defect when no `ProcessExited` existed, and it is why the repair consists of the
+worker sending one. -/
 def leavesAlone (r : Rid) (o : Pid) : Event → Bool
   | .request _ e _ => !(e.kind.shape = .closeSync && e.rid = r)
   | .results _ rs => !(reportedOf rs).contains o
+  | .exited p => !(p == o)
   | .send _ _ msg => !msg.resources.contains r
   | .spawn _ caps arg => !(resourcesList caps ++ arg.resources).contains r
   | _ => true
 
 theorem stays_open_while_left_alone (s : Sys) (hs : Inv s) (r : Rid) (o : Pid)
     (hopen : r ∈ s.env.backend.openSet) (hown : ownGet s.env.owner r = some o)
+    (hno : o ∉ s.env.exited)
     (h : List Event) (hw : handlesFrom s h = true) (hl : ∀ ev ∈ h, leavesAlone r o ev = true) :
     r ∈ (run s h).env.backend.openSet ∧ ownGet (run s h).env.owner r = some o := by
   induction h generalizing s with
@@ -570,17 +939,49 @@ theorem stays_open_while_left_alone (s : Sys) (hs : Inv s) (r : Rid) (o : Pid)
     simp only [handlesFrom, Bool.and_eq_true] at hw
     have hev := hl ev List.mem_cons_self
     have hs' := inv_step hs ev hw.1
+    have hno' : o ∉ (step s ev).env.exited := by
+      rw [step_exited]
+      cases ev with
+      | exited p =>
+        simp only [List.mem_cons, not_or]
+        refine ⟨?_, hno⟩
+        intro hc; subst hc; simp [leavesAlone] at hev
+      | start => exact hno
+      | terminate p => exact hno
+      | request p e w => exact hno
+      | completions k => exact hno
+      | send a t v => exact hno
+      | spawn c caps arg => exact hno
+      | results a rs => exact hno
+    -- a delivery that leaves r alone does not touch r's registration, and does not close r
+    have hsend : ∀ a t v, ev = .send a t v → r ∉ deliverClosed s.env t v := by
+      intro a t v he hm
+      subst he
+      cases hc : s.env.exited.contains t with
+      | false => rw [deliverClosed_alive _ hc] at hm; cases hm
+      | true =>
+        rw [deliverClosed_dead _ hc, mem_ownedBy (hs.keys.insertAll _ _), ownGet_insertAll] at hm
+        simp only [leavesAlone, Bool.not_eq_eq_eq_not, Bool.not_true, List.contains_eq_mem,
+          decide_eq_false_iff_not] at hev
+        rw [if_neg hev, hown] at hm
+        cases hm
+        exact hno (by simpa using hc)
     have hopen' : r ∈ (step s ev).env.backend.openSet := by
       apply Classical.byContradiction
       intro hc
       rcases closed_only_by_owner_close_or_cleanup s hs.keys ev r hopen hc with
-        ⟨p, e, w, rfl, h2, h3, _⟩ | ⟨a, rs, p, rfl, hp, hg⟩
+        ⟨p, e, w, rfl, h2, h3, _⟩ | ⟨a, rs, p, rfl, hp, hg⟩ | ⟨p, rfl, hg⟩ | ⟨a, t, v, rfl, hx, hg⟩
       · simp [leavesAlone, h2, h3] at hev
       · rw [hown] at hg; cases hg
         simp only [leavesAlone, Bool.not_eq_eq_eq_not, Bool.not_true, List.contains_eq_mem,
           decide_eq_false_iff_not] at hev
         obtain ⟨rep, hm, hne, _⟩ := hp
         exact hev (mem_reportedOf.2 ⟨rep, hm, hne⟩)
+      · rw [hown] at hg; cases hg
+        simp [leavesAlone] at hev
+      · apply hsend a t v rfl
+        rw [deliverClosed_dead _ hx, mem_ownedBy (hs.keys.insertAll _ _)]
+        exact hg
     have hown' : ownGet (step s ev).env.owner r = some o := by
       cases hq : ownGet (step s ev).env.owner r with
       | none =>
@@ -589,8 +990,16 @@ theorem stays_open_while_left_alone (s : Sys) (hs : Inv s) (r : Rid) (o : Pid)
         cases ev with
         | start => simp [step, hown] at hq
         | terminate p => simp [step, hown] at hq
+        | exited p =>
+          simp only [step, handleProcessExited_owner, ownGet_eraseAll] at hq
+          split at hq
+          · rename_i hm
+            have := (mem_ownedBy hs.keys).1 hm
+            rw [hown] at this; cases this
+            simp [leavesAlone] at hev
+          · rw [hown] at hq; cases hq
         | send a t v =>
-          rw [transfer_moves_send] at hq
+          rw [transfer_moves_send_gen, if_neg (hsend a t v rfl)] at hq
           split at hq
           · cases hq
           · rw [hown] at hq; cases hq
@@ -635,7 +1044,7 @@ theorem stays_open_while_left_alone (s : Sys) (hs : Inv s) (r : Rid) (o : Pid)
           · simp only [leavesAlone, Bool.not_eq_eq_eq_not, Bool.not_true, List.contains_eq_mem,
               decide_eq_false_iff_not] at hev
             exact hev hm
-    exact ih (step s ev) hs' hopen' hown' hw.2 (fun e he => hl e (List.mem_cons_of_mem _ he))
+    exact ih (step s ev) hs' hopen' hown' hno' hw.2 (fun e he => hl e (List.mem_cons_of_mem _ he))
 
 -- a terminated, never-awaited owner: whatever else the other processes do, its file stays open
 example :
@@ -659,73 +1068,107 @@ structure CInv (s : Sys) : Prop where
   nodup : s.env.backend.closeCalls.Nodup
   not_reg : ∀ r ∈ s.env.backend.closeCalls, r ∉ ownKeys s.env.owner
 
+theorem closedBy_nodup {s : Sys} (hk : KeysNodup s.env.owner) (ev : Event) : (closedBy s ev).Nodup := by
+  cases ev with
+  | results a rs => exact cleanupList_nodup hk _
+  | exited p => exact ownedBy_nodup hk p
+  | send a t v =>
+    simp only [closedBy, deliverClosed]
+    split
+    · exact ownedBy_nodup (hk.insertAll _ _) t
+    · exact List.nodup_nil
+  | start => exact List.nodup_nil
+  | terminate p => exact List.nodup_nil
+  | spawn c caps arg => exact List.nodup_nil
+  | request p e w => exact List.nodup_nil
+  | completions n => exact List.nodup_nil
+
+/-- What a step passes to `close_resource` is unregistered after the step. -/
+theorem closedBy_unreg (s : Sys) (ev : Event) {r : Rid} (h : r ∈ closedBy s ev) :
+    r ∉ ownKeys (step s ev).env.owner := by
+  cases ev with
+  | results a rs =>
+    simp only [step, handleProcessResults_owner, mem_ownKeys_eraseAll, not_and, Classical.not_not]
+    exact fun _ => h
+  | exited p =>
+    simp only [step, handleProcessExited_owner, mem_ownKeys_eraseAll, not_and, Classical.not_not]
+    exact fun _ => h
+  | send a t v =>
+    simp only [step, handleDeliver_owner, mem_ownKeys_eraseAll, not_and, Classical.not_not]
+    exact fun _ => h
+  | start => cases h
+  | terminate p => cases h
+  | spawn c caps arg => cases h
+  | request p e w => cases h
+  | completions n => cases h
+
 theorem cinv_step {s : Sys} (hs : Inv s) (hc : CInv s) (ev : Event) (h2 : noStale s ev = true) :
     CInv (step s ev) := by
   have hcalls := step_closeCalls s ev
-  cases ev with
-  | results a rs =>
-    simp only at hcalls
-    refine ⟨?_, ?_⟩
-    · rw [hcalls]
-      refine List.nodup_append.2 ⟨hc.nodup, cleanupList_nodup hs.keys _, ?_⟩
-      intro x hx y hy hxy
-      subst hxy
-      exact hc.not_reg x hx (cleanupList_sub_keys hs.keys hy)
-    · intro r hr
-      rw [hcalls, List.mem_append] at hr
-      simp only [step, handleProcessResults_owner, mem_ownKeys_eraseAll, not_and, Classical.not_not]
-      intro hk
-      rcases hr with hr | hr
-      · exact absurd hk (hc.not_reg r hr)
-      · exact hr
-  | start => exact ⟨by rw [hcalls]; exact hc.nodup, by intro r hr; rw [hcalls] at hr; exact hc.not_reg r hr⟩
-  | terminate p => exact ⟨by rw [hcalls]; exact hc.nodup, by intro r hr; rw [hcalls] at hr; exact hc.not_reg r hr⟩
-  | send a t v =>
-    refine ⟨by rw [hcalls]; exact hc.nodup, ?_⟩
-    intro r hr
-    rw [hcalls] at hr
-    simp only [step, handleDeliver_owner, mem_ownKeys_insertAll, not_or]
-    refine ⟨?_, hc.not_reg r hr⟩
-    intro hm
-    simp only [noStale, List.all_eq_true, Bool.not_eq_eq_eq_not, Bool.not_true,
-      List.contains_eq_mem, decide_eq_false_iff_not] at h2
-    exact h2 r hm hr
-  | spawn c caps arg =>
-    refine ⟨by rw [hcalls]; exact hc.nodup, ?_⟩
-    intro r hr
-    rw [hcalls] at hr
-    simp only [step, handleSpawn_owner, mem_ownKeys_insertAll, not_or]
-    refine ⟨?_, hc.not_reg r hr⟩
-    intro hm
-    simp only [noStale, List.all_eq_true, Bool.not_eq_eq_eq_not, Bool.not_true,
-      List.contains_eq_mem, decide_eq_false_iff_not] at h2
-    exact h2 r hm hr
-  | completions n =>
-    refine ⟨by rw [hcalls]; exact hc.nodup, ?_⟩
-    intro r hr
-    rw [hcalls] at hr
-    simp only [step, handleCompletions_owner, mem_ownKeys_regAll, not_or]
-    refine ⟨?_, hc.not_reg r hr⟩
-    intro hm
-    have := ((processCompletions_resIds s.env.backend n).2 r hm).1
-    exact absurd (hs.calls_lt r hr) (Nat.not_lt.2 this)
-  | request p e w =>
-    refine ⟨by rw [hcalls]; exact hc.nodup, ?_⟩
-    intro r hr
-    rw [hcalls] at hr
-    simp only [step, handleEffectRequest_owner]
-    split
-    · exact hc.not_reg r hr
-    · split
-      · rename_i res hres
-        rw [mem_ownKeys_regOf, not_or]
-        refine ⟨?_, hc.not_reg r hr⟩
-        intro hx; subst hx
-        obtain ⟨h3, _⟩ := execute_reply_okRes hres
-        have := hs.calls_lt r hr
-        rw [h3] at this
-        exact absurd this (Nat.lt_irrefl _)
-      · exact hc.not_reg r hr
+  -- an id already passed to close_resource is not passed again by this step
+  have hdisj : ∀ r, r ∈ s.env.backend.closeCalls → r ∉ closedBy s ev := by
+    intro r hr hm
+    rcases closedBy_sub hs.keys ev hm with hk | ⟨a, t, v, rfl, hv⟩
+    · exact hc.not_reg r hr hk
+    · simp only [noStale, List.all_eq_true, Bool.not_eq_eq_eq_not, Bool.not_true,
+        List.contains_eq_mem, decide_eq_false_iff_not] at h2
+      exact h2 r hv hr
+  refine ⟨?_, ?_⟩
+  · rw [hcalls]
+    refine List.nodup_append.2 ⟨hc.nodup, closedBy_nodup hs.keys ev, ?_⟩
+    intro x hx y hy hxy
+    subst hxy
+    exact hdisj x hx hy
+  · intro r hr
+    rw [hcalls, List.mem_append] at hr
+    rcases hr with hr | hr
+    · -- r was closed earlier: it is not registered, and this step does not register it
+      have hnk := hc.not_reg r hr
+      cases ev with
+      | results a rs =>
+        simp only [step, handleProcessResults_owner, mem_ownKeys_eraseAll, not_and]
+        exact fun hk => absurd hk hnk
+      | exited p =>
+        simp only [step, handleProcessExited_owner, mem_ownKeys_eraseAll, not_and]
+        exact fun hk => absurd hk hnk
+      | start => exact hnk
+      | terminate p => exact hnk
+      | send a t v =>
+        simp only [step, handleDeliver_owner, mem_ownKeys_eraseAll, mem_ownKeys_insertAll, not_and]
+        intro hk
+        rcases hk with hm | hk
+        · simp only [noStale, List.all_eq_true, Bool.not_eq_eq_eq_not, Bool.not_true,
+            List.contains_eq_mem, decide_eq_false_iff_not] at h2
+          exact absurd hr (h2 r hm)
+        · exact absurd hk hnk
+      | spawn c caps arg =>
+        simp only [step, handleSpawn_owner, mem_ownKeys_insertAll, not_or]
+        refine ⟨?_, hnk⟩
+        intro hm
+        simp only [noStale, List.all_eq_true, Bool.not_eq_eq_eq_not, Bool.not_true,
+          List.contains_eq_mem, decide_eq_false_iff_not] at h2
+        exact h2 r hm hr
+      | completions n =>
+        simp only [step, handleCompletions_owner, mem_ownKeys_regAll, not_or]
+        refine ⟨?_, hnk⟩
+        intro hm
+        have := ((processCompletions_resIds s.env.backend n).2 r hm).1
+        exact absurd (hs.calls_lt r hr) (Nat.not_lt.2 this)
+      | request p e w =>
+        simp only [step, handleEffectRequest_owner]
+        split
+        · exact hnk
+        · split
+          · rename_i res hres
+            rw [mem_ownKeys_regOf, not_or]
+            refine ⟨?_, hnk⟩
+            intro hx; subst hx
+            obtain ⟨h3, _⟩ := execute_reply_okRes hres
+            have := hs.calls_lt r hr
+            rw [h3] at this
+            exact absurd this (Nat.lt_irrefl _)
+          · exact hnk
+    · exact closedBy_unreg s ev hr
 
 /-- **cleanup_closes_once.** Along every history whose handles exist and in which no transfer
 carries a stale copy of an already cleaned-up handle, `close_resource` is called at most once per
@@ -779,6 +1222,14 @@ theorem late_arrival_not_closed :
   intro h' he
   rw [run_append, envOnly_idle _ (by decide) h' he]
   decide
+
+-- the same late arrival under the repaired protocol (the worker has reported the exit): the handle
+-- is closed on arrival instead of staying open, registered to a dead process
+example :
+    let h : List Event := [.start, .spawn 0 [] .other, .open 0, .terminate 1, .exited 1,
+      .awaitReport 0 1, .send 0 1 (.tuple [.other, .res 1])]
+    wfFrom (init 2) h = true ∧ (run (init 2) h).env.backend.closeCalls = [1] ∧
+    (run (init 2) h).env.backend.openSet = [] ∧ ownGet (run (init 2) h).env.owner 1 = none := by decide
 
 /-- The environment does not check that the SENDER of a handle owns it: a process that has given a
 resource away can still move its ownership with the stale copy it kept (here 0 gives r to 1, then
